@@ -33,7 +33,7 @@ try:
         meta = {'case': case, 'property': prop, 'repo_head': head, 'origin': 'independent sub-agent given only the '
                 'property text and a scratch worktree (round %s)' % case.split('-')[1][1:],
                 'needs_to_manifest': needs.get(case, 'see agent_notes.md')}
-        rc0, _ = run_demo()
+        rc0, _ = run_demo() if '--checks' not in flags else (0, '')
         p = sh('git -C %s apply %s/patch.diff' % (WT, d))
         fuzz = False
         if p.returncode != 0:
@@ -51,6 +51,9 @@ try:
                 meta['existing_suite_still_passes'] = t.returncode == 0
             det = {}
             run = ALL if '--all' in flags else [prop]
+            if '--checks' in flags:
+                # a second, targeted pass: the named sibling checks only (results are merged into the existing meta.json)
+                run = flags[flags.index('--checks') + 1].split(',')
             if '--prior' in flags:
                 # re-evaluation on a newer head: the property's own check plus the checks that reported this change in
                 # the last full evaluation (all 20 again when none did)
